@@ -34,12 +34,14 @@ type Pkg struct {
 	DropFuncs []string          `json:"dropfuncs"` // function / method names to delete (glue supplies them)
 	DropDecls []string          `json:"dropdecls"` // type/var/const names to delete
 	Bodyless  bool              `json:"dropbodyless"`
-	Glue      []string          `json:"glue"`   // files (relative to /verif) copied in as .go
-	Need      []string          `json:"need"`   // top-level identifiers that must exist after lifting
+	Glue      []string          `json:"glue"` // files (relative to /verif) copied in as .go
+	Need      []string          `json:"need"` // top-level identifiers that must exist after lifting
 	Strip     []string          `json:"stripbuildtags"`
-	LoopGuard string            `json:"loopguard"` // name of a glue function called at the head of every for-loop body (bounded-progress detection)
+	SelFuncs  []string          `json:"selfuncs"`       // if set, selector rewriting applies only inside these functions/methods
+	OutNames  bool              `json:"plainnames"`     // write lifted_<base> without package prefixing (overlay use)
+	LoopGuard string            `json:"loopguard"`      // name of a glue function called at the head of every for-loop body (bounded-progress detection)
 	KeepDirs  bool              `json:"keepdirectives"` // leave //go: directive comments alone (build constraints of helper packages)
-	Extract   []Extract         `json:"extract"` // constants/variables copied verbatim from other files of the original package
+	Extract   []Extract         `json:"extract"`        // constants/variables copied verbatim from other files of the original package
 }
 
 type Extract struct {
@@ -332,26 +334,49 @@ func rewrite(af *ast.File, p Pkg) {
 	}
 	// 3. selectors on package identifiers
 	used := map[string]bool{}
-	ast.Inspect(af, func(n ast.Node) bool {
-		se, ok := n.(*ast.SelectorExpr)
-		if !ok {
+	selScope := func(f func(ast.Node)) {
+		if len(p.SelFuncs) == 0 {
+			f(af)
+			return
+		}
+		only := map[string]bool{}
+		for _, n := range p.SelFuncs {
+			only[n] = true
+		}
+		for _, d := range af.Decls {
+			if fd, ok := d.(*ast.FuncDecl); ok {
+				name := fd.Name.Name
+				if fd.Recv != nil {
+					name = recvName(fd) + "." + name
+				}
+				if only[name] {
+					f(fd)
+				}
+			}
+		}
+	}
+	selScope(func(root ast.Node) {
+		ast.Inspect(root, func(n ast.Node) bool {
+			se, ok := n.(*ast.SelectorExpr)
+			if !ok {
+				return true
+			}
+			id, ok := se.X.(*ast.Ident)
+			if !ok || id.Obj != nil {
+				return true
+			}
+			if _, isPkg := localName[id.Name]; !isPkg {
+				return true
+			}
+			key := id.Name + "." + se.Sel.Name
+			if to, ok := p.Selectors[key]; ok {
+				parts := strings.SplitN(to, ".", 2)
+				id.Name = parts[0]
+				se.Sel.Name = parts[1]
+				used[parts[0]] = true
+			}
 			return true
-		}
-		id, ok := se.X.(*ast.Ident)
-		if !ok || id.Obj != nil {
-			return true
-		}
-		if _, isPkg := localName[id.Name]; !isPkg {
-			return true
-		}
-		key := id.Name + "." + se.Sel.Name
-		if to, ok := p.Selectors[key]; ok {
-			parts := strings.SplitN(to, ".", 2)
-			id.Name = parts[0]
-			se.Sel.Name = parts[1]
-			used[parts[0]] = true
-		}
-		return true
+		})
 	})
 	// add imports for rewritten selectors
 	for name := range used {
